@@ -10,6 +10,7 @@
 #include <thread>
 
 #include "log.h"
+#include "verif_hook.h"
 
 #include "glog/logging.h"
 
@@ -23,6 +24,7 @@ namespace yakushima {
 }
 
 [[maybe_unused]] static void sleepMs(size_t ms) {
+    YK_VERIF(k_sleep, nullptr, f_generic, ms);
     std::this_thread::sleep_for(std::chrono::milliseconds(ms));
 }
 
